@@ -23,7 +23,9 @@ TARGETS = {"x86_64": "x86_64-unknown-linux-gnu", "i686": "i686-unknown-linux-gnu
            # x86_64 with the AES-NI arm live under the interpreter: detection granted, _mm_aeskeygenassist_si128 modelled
            "x86_64-ni": "x86_64-unknown-linux-gnu",
            # big-endian 64-bit target: byte-order assumptions in the portable backends (family sweep only)
-           "s390x": "s390x-unknown-linux-gnu"}
+           "s390x": "s390x-unknown-linux-gnu",
+           # big-endian 32-bit: fixslice32 and Kuznyechik's table backend as a 32-bit big-endian machine sees them
+           "powerpc": "powerpc-unknown-linux-gnu"}
 
 # families cheap enough for the interpreter (no big const tables, no 521-encryption key setup)
 CHEAP = ["aes128", "aes192", "aes256", "des", "tdes_ede3", "tdes_eee2", "sm4", "xtea", "speck64_128", "speck128_256",
@@ -227,7 +229,7 @@ def minimise_exec(r, want_status, want_prop=None, max_rounds=6):
 def miri_exec_engine(prop, tier, seed):
     quick = tier == "quick"
     nlists = 8 if quick else 64
-    targets = ["x86_64", "i686", "aarch64", "x86_64-ni", "s390x"]
+    targets = ["x86_64", "i686", "aarch64", "x86_64-ni", "s390x", "powerpc"]
     # quick tier: random lists stay below 26 blocks per call (the deterministic grids carry the long batches)
     mb = 26 if quick else None
     files = export_lists(prop, seed, nlists, 10 if quick else 16, 3, "exec", max_blocks=mb)
@@ -305,6 +307,9 @@ def miri_exec_engine(prop, tier, seed):
                 sweep_jobs.append(("i686", outp, False))
                 if ci == 0 or not quick or f == "kuznyechik":
                     sweep_jobs.append(("s390x", outp, False))
+                if not quick or len(chunks) > 1:
+                    # quick: only the crates whose backends are selected by cfg (aes, kuznyechik, serpent, threefish)
+                    sweep_jobs.append(("powerpc", outp, False))
                 if not quick and ci == 0:
                     sweep_jobs.append(("x86_64", outp, False))
     jobs = [(t, f, False) for t in ("x86_64", "i686") for f in files]
@@ -424,6 +429,7 @@ def miri_threads_engine(prop, tier, seed):
         nxt += k
         return out
     groups = [reps[i:i + 4] for i in range(0, len(reps), 4)]
+    aes_k = 0
     for i in range(nwl):
         variants = "-"
         if i % 4 == 1:
@@ -438,9 +444,15 @@ def miri_threads_engine(prop, tier, seed):
         if i % 2 == 0 and not any(f.startswith("aes") for f in fams):
             # first-use workloads race the detection cache: they need a type that goes through it
             fams.append(["aes128", "aes192", "aes256"][(i // 2) % 3])
+        if variants == "-" and any(f.startswith("aes") for f in fams):
+            # the twelve AES build variants rotate through the workloads three at a time, so that every one of them
+            # (each is different code behind &self: union arms, feature-gated fields) is shared between threads
+            av = [v for v in MIRI_VARIANTS if v.startswith("aes_")]
+            variants = ",".join(av[(3 * aes_k + seed + j) % len(av)] for j in range(3))
+            aes_k += 1
         plans.append(dict(wl_seed=seed * 1000 + i, nthreads=r.choice([2, 3, 3, 4]), nops=r.choice([1, 2]),
                           mode="firstuse" if i % 2 == 0 else "shared", fams=fams, miri_seeds=(i * per, i * per + per),
-                          rate=r.choice([0.003, 0.01, 0.03, 0.1]), variants=variants))
+                          rate=r.choice([0.001, 0.003, 0.01, 0.03, 0.1]), variants=variants))
     for p in plans:
         p["target"], p["grant"] = "x86_64", False
     # the AES-NI arm under preemptive threads (x86_64, detection granted, one intrinsic modelled)
@@ -522,6 +534,135 @@ def shuttle_engine(prop, tier, seed):
 # ---------------------------------------------------------------------------
 
 
+
+# ---------------------------------------------------------------------------
+# C14 under the interpreter: the eksblowfish reference model against the real code as other machines see it
+
+
+def c14_pi_hex():
+    return open(os.environ.get("VERIF_PI", os.path.join(BUILD, "pi_hex.txt"))).read().strip()[: 8 * (18 + 1024)]
+
+
+def c14_one(target, path):
+    rc, out, err, wall = run_miri(target, "", ["c14", c14_pi_hex(), os.path.basename(path), open(path).read()], 1700)
+    r = {"file": path, "target": target, "wall": wall, "rc": rc}
+    m = re.search(r"^@c14 \S+ (\{.*\})$", out, re.M)
+    kind, line = classify_miri_error(err)
+    if m:
+        r.update(json.loads(m.group(1)))
+    elif kind in ("ub", "race", "deadlock"):
+        r.update({"status": kind, "error": line, "stderr_tail": err[-1500:]})
+    else:
+        r.update({"status": "other", "error": line, "stderr_tail": err[-600:]})
+    return r
+
+
+def miri_c14_engine(prop, tier, seed):
+    quick = tier == "quick"
+    gdir = os.path.join(BUILD, "tmp", "exp-C14")
+    if os.path.isdir(gdir):
+        for f in os.listdir(gdir):
+            os.remove(os.path.join(gdir, f))
+    n = 12 if quick else 96
+    pr = subprocess.run([NATIVE, "c14-export", "--seed", str(seed), "--count", str(n), "--max-ops", "8" if quick else "14", "--out", gdir], capture_output=True, text=True)
+    if pr.returncode != 0:
+        raise RuntimeError("c14-export failed: " + pr.stderr[-300:])
+    files = sorted(os.path.join(gdir, f) for f in os.listdir(gdir))
+    # big-endian 64- and 32-bit, little-endian 32-bit (the native engine is the little-endian 64-bit machine)
+    tg = ["s390x", "powerpc", "i686"]
+    jobs = [(t, f) for k, f in enumerate(files) for t in (tg if not quick else [tg[k % 2], "i686"][: 1 + (k % 3 == 0)])]
+    t0 = time.time()
+    with ThreadPoolExecutor(max_workers=16) as ex:
+        results = list(ex.map(lambda tf: c14_one(tf[0], tf[1]), jobs))
+    cov = {"mode": "c14 (the native engine's history generator and pi-derived reference model, interpreted on other machines)",
+           "targets": {t: TARGETS[t] for t in tg}, "lists": len(files), "executions": len(results),
+           "ops_executed": sum(r.get("ops", 0) for r in results), "probes": sum(r.get("probes", 0) for r in results),
+           "per_target_ok": {t: sum(1 for r in results if r["target"] == t and r.get("status") == "ok") for t in tg},
+           "wall_s": round(time.time() - t0, 1)}
+    viols, notes, herr = [], [], []
+    for r in results:
+        base = os.path.basename(r["file"]).replace(".json", "")
+        st = r.get("status")
+        if st == "ok":
+            continue
+        if st in ("violation", "ub"):
+            cls = r.get("class", "miri-ub")
+            rp = write_replay(f"{base}-{r['target']}.miri.json", {"format": "block-ciphers-sim-replay/1", "property": "C14", "engine": "miri", "mode": "c14",
+                              "target": r["target"], "list": json.load(open(r["file"])),
+                              "violation": {"property": "C14", "class": cls, "step": r.get("step"), "detail": r.get("detail") or r.get("error"), "stderr_tail": r.get("stderr_tail", "")}})
+            viols.append(("C14", f"C14/{cls}/{r['target']}", rp, r.get("detail") or r.get("error")))
+        else:
+            herr.append(f"miri c14 {r['target']} {base}: {st} {r.get('error', '')} {r.get('stderr_tail', '')[-300:]}")
+    return cov, viols, notes, herr
+
+
+# ---------------------------------------------------------------------------
+# cross-build: the same seeded runs in the default build and in the target-feature build of the simulator
+
+
+def _digest_lists(binp, d, offset, stride, label):
+    e = env_offline()
+    e["VERIF_BUILD_LABEL"] = label
+    p = subprocess.run([binp, "digest-lists", d, "--offset", str(offset), "--stride", str(stride)], capture_output=True, text=True, env=e)
+    if p.returncode != 0:
+        raise RuntimeError(f"digest-lists failed in {binp}: rc={p.returncode} {p.stderr[-300:]}")
+    out = {}
+    for ln in p.stdout.splitlines():
+        f = ln.split()
+        if len(f) >= 4 and f[0].endswith(".json"):
+            out[f[0]] = tuple(f[1:4])  # portable digest (every output byte of every operation), steps, outcome
+    return out
+
+
+def cross_build_engine(prop, tier, seed):
+    """The same explicit operation lists executed by the default build and by the target-feature build.
+    (Explicit lists, not seeds: the generator looks at the live instance's parallel width, which may legitimately
+    differ between builds, so seeded runs of the two builds are not comparable operation by operation.)"""
+    tfb = os.environ.get("VERIF_BIN_TF", "")
+    if not tfb or not os.path.isfile(tfb):
+        return {"present": False, "why": "no target-feature build on this host"}, [], [], []
+    n = 4000 if tier == "quick" else 40000
+    d = os.path.join(BUILD, "tmp", f"xb-{prop}")
+    if os.path.isdir(d):
+        for f in os.listdir(d):
+            os.remove(os.path.join(d, f))
+    t0 = time.time()
+    chunks = 16
+
+    def exp(k):
+        per = n // chunks
+        return subprocess.run([NATIVE, "export", "--prop", prop, "--seed", str(seed ^ 0x7F), "--from", str(k * per), "--count", str(per), "--out", d], capture_output=True, text=True)
+    with ThreadPoolExecutor(max_workers=16) as ex:
+        for pr in ex.map(exp, range(chunks)):
+            if pr.returncode != 0:
+                raise RuntimeError("export failed: " + pr.stderr[-300:])
+    with ThreadPoolExecutor(max_workers=16) as ex:
+        a = list(ex.map(lambda k: _digest_lists(NATIVE, d, k, chunks, ""), range(chunks)))
+        b = list(ex.map(lambda k: _digest_lists(tfb, d, k, chunks, "tf"), range(chunks)))
+    da, db = {}, {}
+    for x in a:
+        da.update(x)
+    for x in b:
+        db.update(x)
+    diff = sorted(i for i in da if db.get(i) != da[i])
+    feats = ""
+    try:
+        feats = open(os.path.join(os.path.dirname(os.path.dirname(tfb)), "features.txt")).read().strip()
+    except OSError:
+        pass
+    cov = {"present": True, "mode": "explicit operation lists (exported from this property's seeded workload) executed by both builds of the simulator; per-list portable digests (every output byte of every operation), step counts and outcomes compared",
+           "target_features_enabled_at_compile_time": feats, "lists_compared": len(da), "lists_differing": len(diff), "wall_s": round(time.time() - t0, 1)}
+    viols, notes = [], []
+    if diff:
+        i = diff[0]
+        rp = write_replay(f"{prop}-cross-build-{seed}.json", {"format": "block-ciphers-sim-replay/1", "property": "C03", "engine": "cross-build", "list": json.load(open(os.path.join(d, i))),
+                          "violation": {"property": "C03", "class": "cross-build", "detail": f"operation list {i} of the {prop} workload: default build {da[i]}, target-feature build ({feats}) {db.get(i)}; {len(diff)} of {len(da)} lists differ"}})
+        (viols if prop == "C03" else notes).append(("C03", "C03/cross-build", rp, f"list {i} gives other bytes in the build with target features {feats} enabled at compile time ({len(diff)} of {len(da)} lists differ)"))
+    for f in os.listdir(d):
+        os.remove(os.path.join(d, f))
+    return cov, viols, notes, []
+
+
 def post(prop, tier, seed):
     evp = os.path.join(VERIF, "evidence", f"{prop}.json")
     ev = json.load(open(evp))
@@ -530,8 +671,12 @@ def post(prop, tier, seed):
         engines = [("shuttle", shuttle_engine), ("miri_threads", miri_threads_engine)]
     elif prop in ("C03", "C04", "C12"):
         engines = [("miri_exec", miri_exec_engine)]
+    elif prop == "C14":
+        engines = [("miri_c14", miri_c14_engine)]
     if os.environ.get("VERIF_NO_MIRI"):
         engines = [e for e in engines if not e[0].startswith("miri")]
+    if prop in ("C03", "C04", "C12", "C15"):
+        engines = [("cross_build", lambda p, t, s: cross_build_engine(p, t, s))] + engines
     all_v, all_n, all_h = [], [], []
     t0 = time.time()
     for name, fn in engines:
@@ -582,7 +727,45 @@ def replay(path):
         if p.returncode == 1:
             print(f"VIOLATION property={j['property']} replay={path}")
         return p.returncode
+    if eng == "cross-build":
+        tfb = os.environ.get("VERIF_BIN_TF", "")
+        if not tfb or not os.path.isfile(tfb):
+            print("HARNESS-ERROR: no target-feature build available for this replay", file=sys.stderr)
+            return 2
+        if "list" in j:
+            d = os.path.join(BUILD, "tmp", "xb-replay")
+            os.makedirs(d, exist_ok=True)
+            for f in os.listdir(d):
+                os.remove(os.path.join(d, f))
+            json.dump(j["list"], open(os.path.join(d, "replay.json"), "w"))
+            a = _digest_lists(NATIVE, d, 0, 1, "")
+            b = _digest_lists(tfb, d, 0, 1, "tf")
+        else:
+            def table(binp, label):
+                e = env_offline()
+                e["VERIF_BUILD_LABEL"] = label
+                return {j["entry"]: json.loads(subprocess.run([binp, "anchor-table"], capture_output=True, text=True, env=e).stdout).get(j["entry"])}
+            a, b = table(NATIVE, ""), table(tfb, "tf")
+        print(json.dumps({"default_build": a, "target_feature_build": b}))
+        if a != b:
+            print("REPRODUCED")
+            print(f"VIOLATION property={j['property']} replay={path}")
+            return 1
+        print("NOT-REPRODUCED")
+        return 0
     if eng == "miri":
+        if j["mode"] == "c14":
+            tmp = os.path.join(BUILD, "tmp", "replay-c14.json")
+            os.makedirs(os.path.dirname(tmp), exist_ok=True)
+            json.dump(j["list"], open(tmp, "w"))
+            r = c14_one(j["target"], tmp)
+            print(json.dumps({k: r[k] for k in r if k != "stderr_tail"})[:2000])
+            if r.get("status") in ("violation", "ub"):
+                print("REPRODUCED")
+                print(f"VIOLATION property={j['property']} replay={path}")
+                return 1
+            print("NOT-REPRODUCED")
+            return 0 if r.get("status") == "ok" else 2
         if j["mode"] == "exec":
             tmp = os.path.join(BUILD, "tmp", "replay-list.json")
             os.makedirs(os.path.dirname(tmp), exist_ok=True)
@@ -613,7 +796,7 @@ def replay(path):
 
 def warm():
     rc = 0
-    for t in ("x86_64", "i686", "aarch64", "x86_64-ni", "s390x"):
+    for t in ("x86_64", "i686", "aarch64", "x86_64-ni", "s390x", "powerpc"):
         e = env_offline()
         if t in ("aarch64", "x86_64-ni"):
             e["RUSTFLAGS"] = "-C target-feature=+aes"
